@@ -21,11 +21,13 @@ static void s_store(char* s, uint64_t idx, char c) {
 }
 static void s_set(char* s, const char* src, uint64_t n) { s_bound(n); for (uint64_t i = 0; i < n && i < S_CAP; i++) s_store(s, i, src[i]); s_store(s, n, 0); S_N(s) = n; S_P(s) = S_BUF(s); }
 static void s_app(char* s, const char* src, uint64_t n) { s_check(s); uint64_t o = S_N(s); s_bound(o); s_bound(o + n); for (uint64_t i = 0; i < n && i < S_CAP; i++) s_store(s, o + i, src[i]); s_store(s, o + n, 0); S_N(s) = o + n; }
+static uint64_t s_len_x(const char* c) { uint64_t n = 0; while (n <= S_CAP && c[n]) n++; s_bound(n); return n; }
 #ifdef STRING_LITERALS_OPAQUE
-/* cut: NUL-terminated literals (error-message text) are value-irrelevant in this harness; they become empty strings */
+/* cut: strings CONSTRUCTED from NUL-terminated literals or by operator+ (error-message text) are value-irrelevant in this
+   harness and become empty; literals appended/assigned to an existing string (+=, append, assign, =) stay exact */
 static uint64_t s_len(const char* c) { return 0; }
 #else
-static uint64_t s_len(const char* c) { uint64_t n = 0; while (n <= S_CAP && c[n]) n++; s_bound(n); return n; }
+static uint64_t s_len(const char* c) { return s_len_x(c); }
 #endif
 /* constructors / destructor */
 void F__ZNSt7__cxx1112basic_stringIcSt11char_traitsIcESaIcEEC2Ev(char* s) { s_init(s); }
@@ -45,18 +47,18 @@ void F__ZNSt7__cxx1112basic_stringIcSt11char_traitsIcESaIcEE10_M_disposeEv(char*
 /* assignment */
 char* F__ZNSt7__cxx1112basic_stringIcSt11char_traitsIcESaIcEEaSERKS4_(char* s, char* o) { s_check(o); if (s != o) s_set(s, S_BUF(o), S_N(o)); return s; }
 char* F__ZNSt7__cxx1112basic_stringIcSt11char_traitsIcESaIcEEaSEOS4_(char* s, char* o) { s_check(o); if (s != o) { s_set(s, S_BUF(o), S_N(o)); s_init(o); } return s; }
-char* F__ZNSt7__cxx1112basic_stringIcSt11char_traitsIcESaIcEEaSEPKc(char* s, char* lit) { s_set(s, lit, s_len(lit)); return s; }
+char* F__ZNSt7__cxx1112basic_stringIcSt11char_traitsIcESaIcEEaSEPKc(char* s, char* lit) { s_set(s, lit, s_len_x(lit)); return s; }
 char* F__ZNSt7__cxx1112basic_stringIcSt11char_traitsIcESaIcEE6assignERKS4_(char* s, char* o) { s_check(o); if (s != o) s_set(s, S_BUF(o), S_N(o)); return s; }
-char* F__ZNSt7__cxx1112basic_stringIcSt11char_traitsIcESaIcEE6assignEPKc(char* s, char* lit) { s_set(s, lit, s_len(lit)); return s; }
+char* F__ZNSt7__cxx1112basic_stringIcSt11char_traitsIcESaIcEE6assignEPKc(char* s, char* lit) { s_set(s, lit, s_len_x(lit)); return s; }
 void F__ZNSt7__cxx1112basic_stringIcSt11char_traitsIcESaIcEE9_M_assignERKS4_(char* s, char* o) { s_check(o); if (s != o) s_set(s, S_BUF(o), S_N(o)); }
 /* append */
 void F__ZNSt7__cxx1112basic_stringIcSt11char_traitsIcESaIcEE9push_backEc(char* s, uint8_t c) { char ch = (char)c; s_app(s, &ch, 1); }
 char* F__ZNSt7__cxx1112basic_stringIcSt11char_traitsIcESaIcEEpLEc(char* s, uint8_t c) { char ch = (char)c; s_app(s, &ch, 1); return s; }
 char* F__ZNSt7__cxx1112basic_stringIcSt11char_traitsIcESaIcEE9_M_appendEPKcm(char* s, char* p, uint64_t n) { s_app(s, p, n); return s; }
 char* F__ZNSt7__cxx1112basic_stringIcSt11char_traitsIcESaIcEE6appendEPKcm(char* s, char* p, uint64_t n) { s_app(s, p, n); return s; }
-char* F__ZNSt7__cxx1112basic_stringIcSt11char_traitsIcESaIcEE6appendEPKc(char* s, char* lit) { s_app(s, lit, s_len(lit)); return s; }
+char* F__ZNSt7__cxx1112basic_stringIcSt11char_traitsIcESaIcEE6appendEPKc(char* s, char* lit) { s_app(s, lit, s_len_x(lit)); return s; }
 char* F__ZNSt7__cxx1112basic_stringIcSt11char_traitsIcESaIcEE6appendERKS4_(char* s, char* o) { s_check(o); s_app(s, S_BUF(o), S_N(o)); return s; }
-char* F__ZNSt7__cxx1112basic_stringIcSt11char_traitsIcESaIcEEpLEPKc(char* s, char* lit) { s_app(s, lit, s_len(lit)); return s; }
+char* F__ZNSt7__cxx1112basic_stringIcSt11char_traitsIcESaIcEEpLEPKc(char* s, char* lit) { s_app(s, lit, s_len_x(lit)); return s; }
 char* F__ZNSt7__cxx1112basic_stringIcSt11char_traitsIcESaIcEEpLERKS4_(char* s, char* o) { s_check(o); s_app(s, S_BUF(o), S_N(o)); return s; }
 void F__ZNSt7__cxx1112basic_stringIcSt11char_traitsIcESaIcEE5clearEv(char* s) { s_check(s); S_N(s) = 0; S_BUF(s)[0] = 0; }
 void F__ZNSt7__cxx1112basic_stringIcSt11char_traitsIcESaIcEE7reserveEm(char* s, uint64_t n) { s_bound(n); }
@@ -66,6 +68,10 @@ void F__ZStplIcSt11char_traitsIcESaIcEENSt7__cxx1112basic_stringIT_T0_T1_EEPKS5_
 void F__ZStplIcSt11char_traitsIcESaIcEENSt7__cxx1112basic_stringIT_T0_T1_EERKS8_PKS5_(char* r, char* o, char* lit) { s_check(o); s_set(r, S_BUF(o), S_N(o)); s_app(r, lit, s_len(lit)); }
 void F__ZStplIcSt11char_traitsIcESaIcEENSt7__cxx1112basic_stringIT_T0_T1_EEOS8_PKS5_(char* r, char* o, char* lit) { s_check(o); s_set(r, S_BUF(o), S_N(o)); s_app(r, lit, s_len(lit)); }
 void F__ZStplIcSt11char_traitsIcESaIcEENSt7__cxx1112basic_stringIT_T0_T1_EEOS8_S5_(char* r, char* o, uint8_t c) { char ch = (char)c; s_check(o); s_set(r, S_BUF(o), S_N(o)); s_app(r, &ch, 1); }
+void F__ZStplIcSt11char_traitsIcESaIcEENSt7__cxx1112basic_stringIT_T0_T1_EEOS8_S9_(char* r, char* a, char* b) { s_check(a); s_check(b); s_set(r, S_BUF(a), S_N(a)); s_app(r, S_BUF(b), S_N(b)); }
+void F__ZStplIcSt11char_traitsIcESaIcEENSt7__cxx1112basic_stringIT_T0_T1_EERKS8_SA_(char* r, char* a, char* b) { s_check(a); s_check(b); s_set(r, S_BUF(a), S_N(a)); s_app(r, S_BUF(b), S_N(b)); }
+void F__ZStplIcSt11char_traitsIcESaIcEENSt7__cxx1112basic_stringIT_T0_T1_EEOS8_RKS8_(char* r, char* a, char* b) { s_check(a); s_check(b); s_set(r, S_BUF(a), S_N(a)); s_app(r, S_BUF(b), S_N(b)); }
+void F__ZStplIcSt11char_traitsIcESaIcEENSt7__cxx1112basic_stringIT_T0_T1_EERKS8_OS8_(char* r, char* a, char* b) { s_check(a); s_check(b); s_set(r, S_BUF(a), S_N(a)); s_app(r, S_BUF(b), S_N(b)); }
 /* growth internals must never be reached when the mutators above are the boundary */
 char* F__ZNSt7__cxx1112basic_stringIcSt11char_traitsIcESaIcEE9_M_createERmm(char* s, char* cap, uint64_t old) { __CPROVER_assert(0, "MODEL: std::string::_M_create reached"); __CPROVER_assume(0); return 0; }
 void F__ZNSt7__cxx1112basic_stringIcSt11char_traitsIcESaIcEE9_M_mutateEmmPKcm(char* s, uint64_t a, uint64_t b, char* c, uint64_t d) { __CPROVER_assert(0, "MODEL: std::string::_M_mutate reached"); __CPROVER_assume(0); }
